@@ -39,6 +39,8 @@ type daemonRunResult struct {
 	races    int
 	raceSum  string
 	exit     int
+	pre      []byte // what the events file held before the daemon started
+	head     []byte // the same number of bytes from the start of the file afterwards
 }
 
 func daemonRun(r *vlib.Rng, nsess int, big, uncorrelated, race, phased bool) *daemonRunResult {
@@ -48,7 +50,12 @@ func daemonRun(r *vlib.Rng, nsess int, big, uncorrelated, race, phased bool) *da
 	if r.Intn(3) == 0 {
 		lvl = "debug"
 	}
-	d, err := startDaemon(daemonOpts{race: race, logLevel: lvl})
+	// C10's scenarios: every other run starts on an events file that already
+	// holds the output of an earlier run (a restart), which must stay intact
+	if big && r.Intn(2) == 0 {
+		res.pre = earlierRunOutput(5 + r.Intn(60))
+	}
+	d, err := startDaemon(daemonOpts{race: race, logLevel: lvl, preexisting: res.pre})
 	if err != nil {
 		res.why = "cannot start daemon: " + err.Error()
 		return res
@@ -85,7 +92,13 @@ func daemonRun(r *vlib.Rng, nsess int, big, uncorrelated, race, phased bool) *da
 		return res
 	}
 	res.exit = d.exitStatus()
-	res.out = parseOutput(d.outputRaw())
+	raw := d.outputRaw()
+	if len(raw) >= len(res.pre) {
+		res.head = raw[:len(res.pre)]
+	} else {
+		res.head = raw
+	}
+	res.out = parseOutput(raw)
 	res.races, res.raceSum = d.raceReports()
 	res.ok = true
 	return res
@@ -97,7 +110,8 @@ func daemonRun(r *vlib.Rng, nsess int, big, uncorrelated, race, phased bool) *da
 // pipelines write to the shared output continuously and concurrently.
 func daemonBurst(r *vlib.Rng, nAudit, nSshd int, race bool) *daemonRunResult {
 	res := &daemonRunResult{sc: &dScenario{Window: -1}}
-	d, err := startDaemon(daemonOpts{race: race})
+	res.pre = earlierRunOutput(40)
+	d, err := startDaemon(daemonOpts{race: race, preexisting: res.pre})
 	if err != nil {
 		res.why = "cannot start daemon: " + err.Error()
 		return res
@@ -175,7 +189,13 @@ func daemonBurst(r *vlib.Rng, nAudit, nSshd int, race bool) *daemonRunResult {
 		res.why = "burst: daemon did not exit after SIGTERM"
 		return res
 	}
-	res.out = parseOutput(d.outputRaw())
+	raw := d.outputRaw()
+	if len(raw) >= len(res.pre) {
+		res.head = raw[:len(res.pre)]
+	} else {
+		res.head = raw
+	}
+	res.out = parseOutput(raw)
 	res.races, res.raceSum = d.raceReports()
 	res.ok = true
 	return res
@@ -227,6 +247,12 @@ func identOfEv(e *auditevent.AuditEvent) string {
 // c10Check: whole lines, no duplicates, UserLogin before any UserAction with its identity.
 func c10Check(r *vlib.Run, res *daemonRunResult, label string) {
 	p := res.out
+	if len(res.pre) > 0 {
+		r.Add("runs_on_a_file_holding_an_earlier_runs_output", 1)
+		if !bytes.Equal(res.pre, res.head) {
+			r.Violation("C10:"+label+":earlier-output-damaged", fmt.Sprintf("the events file held %d bytes (%d events of an earlier run) when the daemon started; afterwards its first %d bytes differ: %s", len(res.pre), bytes.Count(res.pre, []byte("\n")), len(res.pre), trunc(string(res.head), 300)), map[string]any{"scenario_sessions": len(res.sc.Sessions)})
+		}
+	}
 	for _, pr := range p.Problems {
 		r.Violation("C10:"+label+":not-a-whole-event", pr, map[string]any{"scenario_sessions": len(res.sc.Sessions)})
 	}
